@@ -31,12 +31,13 @@ var memPool = []mty{
 	{"[2]int", []string{"[2]int{0, 0}", "[2]int{0, 31}", "[2]int{1, 0}"}, true},
 	{"*S", []string{"(*S)(nil)", "&S{A: 1}", "&S{A: 1}", "&S{A: 2}"}, false},
 	{"[]int", []string{"[]int(nil)", "[]int{}", "[]int{0, 31}", "[]int{1, 0}", "[]int{1, 2}", "[]int{1, 2}", "[]int{2, 1}"}, false},
-	{"map[string]int", []string{"map[string]int(nil)", "map[string]int{}", `map[string]int{"a": 1, "b": 2}`, `map[string]int{"b": 2, "a": 1}`, `map[string]int{"a": 2}`}, false},
+	{"map[string]int", []string{"map[string]int(nil)", "map[string]int{}", `map[string]int{"a": 1, "b": 2}`, `map[string]int{"b": 2, "a": 1}`, `map[string]int{"a": 2}`, `map[string]int{"Aa": 1, "BB": 2}`, `map[string]int{"BB": 2, "Aa": 1}`, `map[string]int{"Aa": 2, "BB": 1}`, `map[string]int{"Aa": 1, "BB": 2, "C": 3}`}, false},
 	{"[]string", []string{"[]string(nil)", `[]string{"Aa"}`, `[]string{"BB"}`, `[]string{"a", "b"}`, `[]string{"a", "b"}`}, false},
 	{"[][]int", []string{"[][]int(nil)", "[][]int{{1}, {2}}", "[][]int{{1, 2}}", "[][]int{{}, nil}", "[][]int{{1}, {2}}"}, false},
 	{"T2", []string{"T2{}", "T2{L: []int{0, 31}}", "T2{L: []int{1, 0}}", "T2{N: 1}", "T2{L: []int{0, 31}}"}, false},
 	{"*int", []string{"(*int)(nil)", "ptr(1)", "ptr(1)", "ptr(2)"}, false},
 	{"bool", []string{"false", "true"}, true},
+	{"map[string][]int", []string{"map[string][]int(nil)", `map[string][]int{"AaBB": {1}, "BBAa": {2}, "AaAa": nil}`, `map[string][]int{"BBAa": {2}, "AaAa": nil, "AaBB": {1}}`, `map[string][]int{"AaBB": {2}, "BBAa": {1}, "AaAa": nil}`}, false},
 	{"map[int][]string", []string{"map[int][]string(nil)", `map[int][]string{1: {"a"}, 2: nil}`, `map[int][]string{2: nil, 1: {"a"}}`, `map[int][]string{1: {"b"}}`}, false},
 }
 
